@@ -251,9 +251,9 @@ RELABEL_ONLY = {"C04/": r"protocol-effects-are-exactly-PS3\.8|next-state-is-PS3\
 
 def tasks(tier):
     from contracts.C27 import SendTask
-    from contracts.dul_reactor import DulReactorTask
+    from contracts.dul_reactor import DulReactorTask, TransportEventTask
     from contracts import C04
-    return [ProcessPrimitiveTask(), ProducersScan(), ClosureTask(), ArtimTask(), SendTask(), DulReactorTask()] + \
+    return [ProcessPrimitiveTask(), ProducersScan(), ClosureTask(), ArtimTask(), SendTask(), DulReactorTask(), TransportEventTask()] + \
         [C04.ActionTask(a) for a in sorted(S.ACTIONS)] + [C04.DoActionTask(e) for e in S.EVENTS]
 
 
